@@ -32,6 +32,7 @@ from __future__ import annotations
 
 import asyncio
 import random as _random
+import re
 import struct
 import types
 
@@ -76,7 +77,7 @@ MAX_RE = 8
 # real side
 # ================================================================================================================
 class Pkt:
-    __slots__ = ("src", "dst", "data", "forged")
+    __slots__ = ("src", "dst", "data", "forged", "nested")
 
     def __init__(self, src, dst, data):
         self.src, self.dst, self.data = src, dst, data
@@ -393,6 +394,10 @@ class History:
         self.known_ids: dict[int, set] = {}
         self.freed: list[tuple[int, int]] = []      # (node, id) that was in use there and has been removed
         self.ext_req: dict[int, dict] = {}
+        self.twice_reported = False
+        self.exit_objs: dict[int, dict] = {}
+        self.stale: list = []             # exit socket objects that have left their table
+        self.may_pop: set = set()         # (node, kind, id(entry)): a removal of this entry was legitimately requested
         self.failed = False
 
     # ---- helpers ---------------------------------------------------------------------------------------
@@ -433,6 +438,20 @@ class History:
         self.ctx.case(casekey, nontrivial)
         self.ctx.count(f"action:{kind}")
         self.check_logs()
+        for p_ in w.step_sends:
+            if re.search(rb"d5:[FB]:\d+:\d+:\d+:x", p_.data):
+                # O10: every data payload of the harness carries the tag; it must never be readable on a link
+                self.fail("PythonCryptoEndpoint.send_cell:payload-on-the-wire-unencrypted",
+                          f"a datagram to {w.aidx(p_.dst)} carries a data payload in clear: {w.header(p_)}", {"node": node})
+        if node:
+            o_ = w.ov(node)
+            twice = (set(o_.circuits) & set(o_.relay_from_to)) | (set(o_.circuits) & set(o_.exit_sockets)) \
+                | (set(o_.relay_from_to) & set(o_.exit_sockets))
+            if twice and not self.twice_reported:
+                self.twice_reported = True
+                self.fail("TunnelCommunity:circuit-id-in-use-twice",
+                          f"node {node} uses circuit id(s) {sorted(twice)} in two of circuits / relay_from_to / exit_sockets",
+                          {"node": node})
         if node:
             self.track_ids_and_extensions(node)
             for tr in w.transports:
@@ -452,6 +471,11 @@ class History:
         that appears when the cache is consumed must carry the session keys that entry had when the EXTEND came in."""
         w = self.w
         o = w.ov(node)
+        for e_ in list(self.exit_objs.get(node, {}).values()):
+            if o.exit_sockets.get(e_.circuit_id) is not e_ and not any(e_ is s_ for s_, _ in self.stale):
+                self.stale.append((e_, node))
+        self.exit_objs[node] = {id(e_): e_ for e_ in o.exit_sockets.values()} | \
+            {k_: v_ for k_, v_ in self.exit_objs.get(node, {}).items()}
         now = set(o.circuits) | set(o.relay_from_to) | set(o.exit_sockets)
         was = self.known_ids.get(node, set())
         for cid in was - now:
@@ -500,8 +524,7 @@ class History:
         for (i, ecid, kb, dest, data) in w.step_exit:
             t = parse_tag(data)
             if t is None:
-                self.fail("TunnelExitSocket.sendto:untagged-exit", f"node {i} exit {ecid} emitted unknown data {data[:40]!r}")
-                continue
+                raise InfraError(f"node {i} exit {ecid} emitted data the harness never sent: {data[:40]!r}")
             d, o, cid, seq = t
             bk = self.circs.get((o, cid))
             ok = d == "F" and bk is not None and bk.get("exit_key") == kb and bk.get("exit_node") == i
@@ -515,18 +538,24 @@ class History:
         for (i, cid_label, origin, data) in w.step_orig:
             t = parse_tag(data)
             if t is None:
-                self.fail("TunnelCommunity.on_data:untagged", f"node {i} got unknown data on circuit {cid_label}")
-                continue
+                raise InfraError(f"node {i} got data the harness never sent on circuit {cid_label}")
             d, o, cid, seq = t
             if d == "B" and o == 0 and cid == 0:
                 # the harness' own unencrypted DATA cell, injected at a backward relay, was accepted by an originator
                 # whose circuit has exactly as many verified hops as relays added layers (circuit still extending)
                 c_ = w.ov(i).circuits.get(cid_label)
+                if c_ is None or len(c_.hops) >= c_.goal_hops:
+                    # NOT the known finding: the circuit is complete, every layer of a genuine reply is checked
+                    self.fail("TunnelCommunity.on_data:third-party-data-delivered",
+                              f"an unencrypted DATA cell of a third party was delivered at node {i} as data of the complete "
+                              f"circuit {cid_label}", {"tag": [d, o, cid, seq]})
+                    continue
+                was_failed = self.failed
                 self.fail("TunnelCommunity.on_data:third-party-data-delivered-while-extending",
                           f"an unencrypted DATA cell injected by a third party at a backward relay was delivered at node {i} "
                           f"as data of circuit {cid_label} ({len(c_.hops) if c_ else '?'} verified hops of "
                           f"{c_.goal_hops if c_ else '?'})", {"tag": [d, o, cid, seq]})
-                self.failed = False       # a recorded finding of its own; the history continues
+                self.failed = was_failed  # a recorded finding of its own; the history continues
                 continue
             if not (d == "B" and o == i and cid == cid_label):
                 self.fail("TunnelCommunity.on_data:wrong-originator",
@@ -613,10 +642,27 @@ class History:
             ph = lambda e: 0 if not e.enabled else 1 if e.transport_ipv4 is None else 2 if e.transport_ipv6 is None else 3  # noqa: E731
             others = sum(1 for c2, e2 in w.ov(node).exit_sockets.items() if c2 != h[2] and ph(e2) in (1, 2))
             self.ctx.count(f"cell_at_exit:phase={ph(ex)}:other_sockets_opening={min(others, 2)}")
+        if h[1] == "destroy":
+            adj_ = self.adjacent_peer(node, h[2])
+            if adj_ is not None and w.key_idx.get(adj_) == h[5]:
+                self.allow_pop(node, h[2])
         routes = {c: r for c, r in w.ov(node).relay_from_to.items()}
+        nested = getattr(p, "nested", False)
+        ids_before = w.identity(node) if nested else None
         w.inject(node, p.src, p.data)
+        if nested:
+            for p_ in w.step_sends:
+                p_.nested = True
+            if "C" in role and (w.identity(node) != ids_before or w.step_orig or w.step_exit or
+                                (w.step_sends and "R" not in role)):
+                self.fail("TunnelCommunity.on_data:nested-message-dispatched",
+                          f"a datagram from outside that imitates a tunnel message (sender-chosen circuit id and source) came "
+                          f"back on circuit {h[2]} and node {node} acted on it: sent {[w.header(q) for q in w.step_sends]}, "
+                          f"delivered {len(w.step_orig) + len(w.step_exit)}, tables changed: {w.identity(node) != ids_before}",
+                          {"node": node})
         for c, r in w.ov(node).relay_from_to.items():
-            if c in routes and routes[c] is not r:
+            if c in routes and routes[c] is not r and (routes[c].circuit_id, tuple(routes[c].hop.address)) != \
+                    (r.circuit_id, tuple(r.hop.address)):
                 # O9: an established relay route is never re-assigned (it may only be removed)
                 self.fail("TunnelCommunity.on_created:established-relay-route-overwritten",
                           f"node {node}: relay entry {c} (to {w.aidx(routes[c].hop.address)} as {routes[c].circuit_id}) was "
@@ -753,6 +799,79 @@ class History:
         self.record(f"rp {i} {ecid} {w.aidx(src)} {tag_num('B', o, cid, seq)}", i, "outside-reply", True, ("rp",))
         return seq
 
+    def act_reply_stale(self):
+        """A datagram from outside reaches an exit socket OBJECT that has already left the table (its transport may
+        still deliver something that was in flight): tunnel_data looks the id up again."""
+        w = self.w
+        # only through a transport that is still open: a closed UDP transport delivers nothing any more
+        live = [(s_, i) for (s_, i) in self.stale
+                if any(tr.sock is s_ and not tr.closed for tr in w.transports)]
+        if not live:
+            return
+        sock, i = self.rng.choice(live)
+        self.seq += 1
+        src = ("10.2.0.%d" % (1 + self.seq % 200), 4000 + self.seq % 1000)
+        w.begin()
+        try:
+            sock.datagram_received_ipv4(mk_tag("B", 0, 1, self.seq), src)
+        except Exception:
+            w.raised += 1
+        w.drain()
+        self.record(f"rps {i} {sock.circuit_id} {w.aidx(sock.hop.address)} {w.aidx(src)} {tag_num('B', 0, 1, self.seq)}", i,
+                    "outside-reply-stale-socket", True, ("rps", len(w.step_sends)))
+
+    def act_reply_nested(self):
+        """A datagram from outside that looks like a message of the tunnel community itself (prefix + DATA / CREATE /
+        EXTEND / PING with sender-chosen circuit id and addresses) arrives at an enabled exit socket."""
+        from ipv8.messaging.anonymization.payload import CreatePayload, DataPayload, ExtendPayload, PingPayload
+        w, rng = self.w, self.rng
+        cands = [(i, ecid) for i in range(1, w.n + 1) for ecid, e in w.ov(i).exit_sockets.items() if e.enabled]
+        if not cands:
+            return
+        i, ecid = rng.choice(cands)
+        e = w.ov(i).exit_sockets[ecid]
+        # the message will be handled (if at all) by the originator of the circuit this exit socket serves: name ids of THAT node
+        kb = e.hop.keys.key_forward if e.hop.keys is not None else None
+        owner = next((k for k, bk in self.circs.items() if bk.get("exit_key") == kb), None)
+        ids = []
+        if owner is not None:
+            oo = w.ov(owner[0])
+            ids = [c for c, x in oo.exit_sockets.items() if x.enabled] or \
+                (list(oo.exit_sockets) + list(oo.relay_from_to) + list(oo.circuits))
+        victim = rng.choice(ids) if ids and rng.random() < 0.8 else rng.getrandbits(32)
+        att = w.n + 1
+        pk = w.nodes[att].my_peer.public_key.key_to_bin()
+        pl = rng.choice([DataPayload(victim, ("10.6.6.6", 666), ZERO, mk_tag("F", 0, 2, 0)),
+                         PingPayload(victim, 7), CreatePayload(rng.getrandbits(32), 7, pk, w.ov(att).crypto.generate_diffie_secret()[1]),
+                         ExtendPayload(victim, 7, pk, b"\x01" * 32, w.addr(att))])
+        data = w.prefix + bytes([pl.msg_id]) + w.ov(att).serializer.pack_serializable(pl)      # incl. the circuit id field
+        w.begin()
+        e.datagram_received_ipv4(data, ("10.3.0.1", 5000))
+        w.drain()
+        for p_ in w.step_sends:
+            p_.nested = True
+        self.record(f"rpn {i} {ecid} {pl.msg_id}", i, "outside-reply-nested-message", True, ("rpn", pl.msg_id))
+        self.ctx.count(f"nested:{pl.msg_id}")
+
+    def act_send_unfinished(self):
+        """send_data on an own circuit that has no verified hop yet, i.e. no keys at all: nothing may leave.
+        (With >= 1 verified hop an EXTENDING circuit is not offered to applications - find_circuits / TunnelEndpoint use READY
+        circuits only; data sent on it anyway would be peeled by the last verified hop, which may already relay.)"""
+        w = self.w
+        cands = [(o, cid) for o in range(1, w.n + 1) for cid, c in w.ov(o).circuits.items()
+                 if c.state == "EXTENDING" and not c.hops and c.unverified_hop]
+        if not cands:
+            return
+        o, cid = self.rng.choice(cands)
+        c = w.ov(o).circuits[cid]
+        self.seq += 1
+        dest = ("10.0.1.%d" % (1 + self.seq % 200), 2500)
+        w.begin()
+        w.ov(o).send_data(c.hop.address, cid, dest, ZERO, mk_tag("F", o, cid, self.seq))
+        w.drain()
+        self.record(f"sd {o} {cid} {w.aidx(dest)} {tag_num('F', o, cid, self.seq)}", o, "send-data-unfinished-circuit", True,
+                    ("sdu", len(c.hops), len(w.step_sends)))
+
     def act_ping(self):
         w = self.w
         o = self.rng.randint(1, w.n)
@@ -773,6 +892,7 @@ class History:
             table = {"C": o.circuits, "E": o.exit_sockets, "R": o.relay_from_to}[kind]
             if table:
                 cid = rng.choice(list(table.keys()))
+                self.allow_pop(i, cid)
                 w.begin()
                 if kind == "C":
                     if (i, cid) in self.circs:
@@ -826,12 +946,20 @@ class History:
                 # remove_* tasks whose sleep(remove_tunnel_delay) ended: the entry is popped by id
                 gone = [k for k in tables0[i] if k not in w.identity(i)]
                 lines += [f"rx{kind} {i} {cid}" for (kind, cid) in sorted(gone)]
+                for (kind, cid) in gone:
+                    if kind in "RE" and (i, kind, tables0[i][(kind, cid)][0]) not in self.may_pop:
+                        # O4 for remove_tunnel_delay > 0: nothing is visible when the destroy is accepted, the entry goes later
+                        self.fail("TunnelCommunity.on_destroy:delayed-removal-without-authorised-destroy",
+                                  f"node {i}: {'relay' if kind == 'R' else 'exit'} entry {cid} was popped after "
+                                  f"remove_tunnel_delay although no destroy signed by its adjacent peer (and no local removal) "
+                                  f"had named it", {"node": i})
+                    elif kind in "RE":
+                        self.ctx.count("delayed-pop:authorised")
                 self.ctx.count("delayed-pop", len(gone))
             for cid, ident in r0.items():
                 circ = w.ov(i).circuits.get(cid)
                 if circ is None or (circ.state == "CLOSING" and cid not in r1):
-                    if not any(l_ == f"rxC {i} {cid}" for l_ in lines) or True:
-                        lines.insert(len([l_ for l_ in lines if not l_.startswith("rx")]), f"xr {i} {cid}")
+                    lines.insert(len([l_ for l_ in lines if not l_.startswith("rx")]), f"xr {i} {cid}")
                     self.ctx.count("retry-timeout:circuit-removed")
                 elif r1.get(cid) != ident or cid not in r1:
                     if circ.unverified_hop is not None and cid in r1:
@@ -857,7 +985,7 @@ class History:
         w.flight = [p for p in w.flight if not any(p is q for q in w.step_sends)] + ordered + rest
         self.hist.extend(ordered + rest)
         if rest:
-            self.fail("harness:advance-unexplained-datagram", f"time advance produced {[w.header(p) for p in rest]}")
+            raise InfraError(f"time advance produced datagrams no expiry explains: {[w.header(p) for p in rest]}")
         self.stepno += 1
 
     # ---- forged events -----------------------------------------------------------------------------------
@@ -877,6 +1005,11 @@ class History:
                 pool.append((i, cid, "E"))
         if want_roles:
             pool = [x for x in pool if x[2] in want_roles]
+        pend_to = [(i, c.to_circuit_id) for i in range(1, w.n + 1)
+                   for k, c in w.ov(i).request_cache._identifiers.items() if k.startswith("create:")]
+        if pend_to and not want_roles and rng.random() < 0.08:
+            self.ctx.count("target:id-reserved-for-a-pending-extension")
+            return rng.choice(pend_to)
         if self.freed and not want_roles and rng.random() < 0.12:
             self.ctx.count("target:recently-freed-id")
             return rng.choice(self.freed)
@@ -1094,6 +1227,15 @@ class History:
         else:
             self.forge_destroy(before_ids)
 
+    def allow_pop(self, node: int, cid: int):
+        """A removal of the entries named `cid` at `node` (and, for a relay, of its pair) was legitimately requested."""
+        o = self.w.ov(node)
+        r = o.relay_from_to.get(cid)
+        for kind, tab, c in (("R", o.relay_from_to, cid), ("E", o.exit_sockets, cid),
+                             ("R", o.relay_from_to, r.circuit_id if r is not None else None)):
+            if c is not None and c in tab:
+                self.may_pop.add((node, kind, id(tab[c])))
+
     def adjacent_peer(self, node, cid):
         """Public key of the peer whose destroy for `cid` node must honour (None if the id is unused)."""
         o = self.w.ov(node)
@@ -1155,6 +1297,8 @@ class History:
         src = self.pick_src(node) if (rng.random() < 0.6 or "src" in self.force) else w.addr(signer)
         before = w.identity(node)
         snap = w.snapshot(node)
+        if sigok and adj is not None and w.key_idx.get(adj) == signer:
+            self.allow_pop(node, cid)
         w.begin()
         w.inject(node, src, bytes(pkt))
         after = w.identity(node)
@@ -1625,6 +1769,12 @@ class History:
                     self.act_redirect()
                 elif r < 0.83:
                     self.act_gate()
+                elif r < 0.85:
+                    self.act_reply_stale()
+                elif r < 0.88:
+                    self.act_reply_nested()
+                elif r < 0.90:
+                    self.act_send_unfinished()
                 else:
                     self.act_forge()
             if not self.failed and self.stop_at is None and self.do_sweep:
@@ -1869,7 +2019,7 @@ def run(ctx: Ctx):
         return replay(ctx, ctx.replay_input)
     run_reuses(ctx, ctx.model_ok)
     run_openings(ctx, ctx.model_ok)
-    run_histories(ctx, ctx.scale(500, 5000), ctx.model_ok, sweeps=ctx.scale(2, 60))
+    run_histories(ctx, ctx.scale(400, 5000), ctx.model_ok, sweeps=ctx.scale(2, 60))
 
 
 def search(ctx: Ctx, reason: str):
